@@ -582,3 +582,39 @@ def emit_state_signatures(ctx, prog, pfx):
            'where it stopped (continuation signatures of %d suspension sites vs. %d resume labels, %d distinct)' % (
                len(sites), len(labels), distinct), f.loc(sw[0]), not bad and distinct >= 5, '; '.join(bad[:3]) or
            ', '.join('%d: %s' % (k, ' '.join(v[:6])) for k, v in sorted(labels.items())), evals=len(sites) + len(labels))
+
+
+def unrle_walk(ctx, prog, pfx, only=None):
+    """the run-length expander emit() against the un-RLE automaton of the format: lib/unrle.py (abstract
+    interpretation to a fixpoint over the resume states); `only` selects the rules this property adopts"""
+    import irdb
+    import unrle
+    f = prog.func('decode', 'emit')
+    en = irdb.enumerators(f.module)
+    for k in ('OK', 'MORE', 'ERR_RUNLEN'):
+        if k not in en:
+            raise irdb.AnalysisBroken('%s: enumerator %s vanished' % (pfx, k))
+    eng = unrle.Unrle(prog, f, {k: en[k] for k in ('OK', 'MORE', 'ERR_RUNLEN')})
+    entries = eng.run()
+    findings = any(bad for ok, bad, d in eng.results.values())
+    n = 0
+    for (rule, site), (ok, bad, detail) in sorted(eng.results.items()):
+        if only and rule not in only:
+            continue
+        n += 1
+        ctx.ob('%s.unrle.%s' % (pfx, rule), 'emit(): %s' % unrle.RULES.get(rule, rule), site, bad == 0,
+               detail or '%d abstract path(s)' % ok, evals=ok + bad)
+    if not findings:
+        ctx.floor(pfx + ' emit(): resume states reached through MORE', len({d[0] for d in entries}), 5)
+        ctx.floor(pfx + ' emit(): OK returns explored', eng.exits['ok'], 1)
+        ctx.floor(pfx + ' emit(): MORE returns explored', eng.exits['more'], 1)
+        ctx.floor(pfx + ' emit(): ERR_RUNLEN returns explored', eng.exits['err'], 1)
+        for need in ('space', 'read', 'data', 'repeat', 'runlen', 'ok', 'more'):
+            if not any(r == need for r, _ in eng.results):
+                raise irdb.AnalysisBroken('%s: rule %s was never evaluated in emit()' % (pfx, need))
+    if n == 0:
+        raise irdb.AnalysisBroken('%s: no rule of the emit() walk adopted' % pfx)
+    ctx.extra.setdefault('emit_walk', {
+        'abstract_states': eng.visited, 'fixpoint_rounds': eng.rounds,
+        'resume_states': sorted(str(d) for d in entries), 'returns': {k: v for k, v in eng.exits.items() if v}})
+    return eng
